@@ -21,3 +21,4 @@ open SamVerif.Differ
 #print axioms off_line
 #print axioms toplevel_err_text
 #print axioms toplevel_edits_eq
+#print axioms code_action_offered_iff
